@@ -216,6 +216,9 @@ fn run_engine(fills: &[Fill]) -> Result<Outcome, V> {
     let mut exits: Vec<Vec<Exit>> = vec![vec![]; N_INSTR];
     let mut last_balance: Vec<Option<(Decimal, Decimal)>> = vec![None; ins.assets().len()];
     let mut steps = 0;
+    // a second summary generator, created up front and maintained through the public
+    // `update_from_position` / `update_from_balance` API (keyed by index), as an audit consumer would
+    let mut shadow = engine.trading_summary_generator(Decimal::ZERO);
     for (idx, f) in fills.iter().enumerate() {
         let ev: EngineEvent = fixtures::ev_account(exch_of[f.instr], barter_execution::AccountEventKind::Trade(mk_trade(f, idx, InstrumentIndex(f.instr))));
         let audit = catch(|| engine.process(ev)).map_err(|m| ("panic_in_engine_trade_processing", m))?;
@@ -224,6 +227,7 @@ fn run_engine(fills: &[Fill]) -> Result<Outcome, V> {
             for o in pa.outputs.into_iter() {
                 if let EngineOutput::PositionExit(e) = o {
                     exits[e.instrument.index()].push(exit_of(&e));
+                    catch(|| shadow.update_from_position(&e)).map_err(|m| ("panic_in_trading_summary_update", m))?;
                 }
             }
         }
@@ -235,6 +239,12 @@ fn run_engine(fills: &[Fill]) -> Result<Outcome, V> {
         let free = total - Decimal::ONE;
         let ev = fixtures::ev_balance(exch_of[f.instr], a, 1500 + idx as i64 * 60_000, total, free);
         catch(|| engine.process(ev)).map_err(|m| ("panic_in_engine_balance_processing", m))?;
+        {
+            use barter_execution::balance::{AssetBalance, Balance};
+            use barter_integration::snapshot::Snapshot;
+            let bal = AssetBalance { asset: barter_instrument::asset::AssetIndex(a), balance: Balance::new(total, free), time_exchange: t(1500 + idx as i64 * 60_000) };
+            catch(|| shadow.update_from_balance(Snapshot(&bal))).map_err(|m| ("panic_in_trading_summary_update", m))?;
+        }
         last_balance[a] = Some((total, free));
         steps += 1;
     }
@@ -268,6 +278,23 @@ fn run_engine(fills: &[Fill]) -> Result<Outcome, V> {
         let got = sheet.balance_end.map(|b| (b.total, b.free));
         if got != last_balance[a] {
             return Err(("trading_summary_asset_entry_reflects_another_assets_history", format!("asset {a} {key:?}: balance_end={got:?} expected {:?}", last_balance[a])));
+        }
+    }
+    // the separately maintained generator must report the same per-instrument / per-asset sheets
+    let shadow_summary = catch(|| shadow.generate(Daily)).map_err(|m| ("panic_in_trading_summary_generate", m))?;
+    for (i, keyed) in ins.instruments().iter().enumerate() {
+        let name = &keyed.value.name_internal;
+        let Some(sheet) = shadow_summary.instruments.get(name) else {
+            return Err(("trading_summary_missing_instrument", format!("maintained generator: {name}")));
+        };
+        checks += judge_sheet(&format!("maintained summary[{name}] (instrument {i})"), sheet, &exits[i]).map_err(|(_, dd)| ("maintained_trading_summary_entry_reflects_another_history", dd))?;
+    }
+    for (a, keyed) in ins.assets().iter().enumerate() {
+        let key = barter_instrument::asset::ExchangeAsset::new(keyed.value.exchange, keyed.value.asset.name_internal.clone());
+        checks += 1;
+        let got = shadow_summary.assets.get(&key).and_then(|s| s.balance_end).map(|b| (b.total, b.free));
+        if got != last_balance[a] {
+            return Err(("maintained_trading_summary_entry_reflects_another_history", format!("asset {a} {key:?}: balance_end={got:?} expected {:?}", last_balance[a])));
         }
     }
     Ok(Outcome { exits_per_instr: exits, sheets, steps, checks })
